@@ -502,7 +502,10 @@ def stall_oracle(trial, info):
     if s['kind'] == 'rejoin' and info['tracked']:
         for w, k in info['W'].items():
             if k > 1: out.append(('netbal-overrun-after-stall', f"the rejoin stalled: worker {w} (tracks it) published {k} further sets (bound 1)"))
-        for o, k in info['S_out'].items():
+        # the splitter's bound (2 per output: one set pending in the worker's loop, one prefetched) is MEASURED, not proved, and holds only for workers whose every
+        # result reaches their sender: a worker that returns None drops its pending set unpublished and keeps taking frames (C04NetBalReach.lean, "Not proved")
+        skipping = any(bh.get('skip') or bh.get('dnone') or bh.get('cskip') or bh.get('cdnone') for bh in trial['topo']['behs'][1:b + 1])
+        for o, k in ({} if skipping else info['S_out']).items():
             if k > 2: out.append(('netbal-overrun-after-stall', f"the rejoin stalled: the splitter put {k} further ids on output {o} (bound 2 per output, {2 * b} in total)"))
     return out
 
